@@ -11,6 +11,7 @@ import (
 	"time"
 
 	lifecycle "github.com/boz/go-lifecycle"
+	"github.com/tendermint/tendermint/libs/log"
 
 	dtypes "github.com/ovrclk/akash/x/deployment/types"
 )
@@ -68,4 +69,43 @@ func Harness_C20_submit() {
 		}
 		verif_Assert(delivered, "C20 the manager never hangs: the reply to a submission whose submitter has gone away is delivered without blocking")
 	}
+}
+
+// The service loop hands a submission to the deployment's manager with handleManifest.  A manager
+// that has begun to stop (it no longer reads its channels, and it reports "done" to that very
+// service loop before it is completely finished) must be answered for at once: the service loop
+// may not wait for the manager, or both wait for each other forever.
+func Harness_C20_handle_stopping() {
+	m := &manager{manifestch: make(chan manifestRequest), updatech: make(chan []byte), log: log.NewNopLogger(), lc: lifecycle.New()}
+	m.lc.ShutdownInitiated(nil) // the manager is stopping; ShutdownCompleted comes only after the service loop has taken its "done"
+	reply := make(chan error, 1)
+	returned := make(chan struct{})
+	if verif_Symbolic() {
+		verif_OnQuiescent(func() { // the call waits for something that never comes
+			verif_Reach("handled")
+			verif_Assert(false, "C20 the manifest manager never hangs: a submission for a stopping manager is answered without waiting for it")
+		})
+		m.handleManifest(manifestRequest{value: &submitRequest{}, ch: reply, ctx: nil})
+		m.handleUpdate([]byte{1})
+		close(returned)
+	} else {
+		go func() {
+			m.handleManifest(manifestRequest{value: &submitRequest{}, ch: reply, ctx: nil})
+			m.handleUpdate([]byte{1})
+			close(returned)
+		}()
+		select {
+		case <-returned:
+		case <-time.After(500 * time.Millisecond):
+		}
+	}
+	done := false
+	select {
+	case <-returned:
+		done = true
+	default:
+	}
+	verif_Reach("handled")
+	verif_Assert(done, "C20 the manifest manager never hangs: a submission for a stopping manager is answered without waiting for it")
+	verif_Assert(len(reply) == 1, "C20 every manifest submission receives exactly one reply")
 }
